@@ -21,10 +21,10 @@ func argKernelJobs(tier string, prefix string) []*Job {
 	}
 	return []*Job{
 		{Name: "callArgs", Pkg: "ti/eval/method_evaluator", Entry: "VerifCallArgs", N: na, Budget: 600000,
-			Reach: []string{"called"}, Asserts: []string{"C07-args-misuse-accepted", "C08-args-fit-rejected"}, Replay: "kernel", Stubs: fmtStubs,
+			Reach: []string{"called"}, Asserts: []string{"C07-args-misuse-accepted", "C08-args-fit-rejected"}, Replay: "kernel", Cross: true, Stubs: fmtStubs,
 			Bound: sprintf("checkAndPropagateArgs (check round) on a configured method with r<=2 required, o<=1 defaulted, optional *rest, p<=1 trailing, <=2 keywords (required/defaulted), declared kinds Integer/String, called with <=%d positionals of kinds Integer/String/NilClass, any subset of the declared keywords and optionally an undeclared one", na)},
 		{Name: "checkArgType", Pkg: "ti/eval/method_evaluator", Entry: "VerifCheckArgType", N: n, Budget: 400000,
-			Reach: []string{"checked"}, Asserts: []string{"C08-fits-but-rejected", "C07-misfit-but-accepted"}, Replay: "kernel", Stubs: fmtStubs,
+			Reach: []string{"checked"}, Asserts: []string{"C08-fits-but-rejected", "C07-misfit-but-accepted"}, Replay: "kernel", Cross: true, Stubs: fmtStubs,
 			Bound: sprintf("checkArgType on every parameter T that is a scalar or a union of <=3 kinds (11 value kinds incl. two object classes, untyped) and every argument T that is a scalar or union of <=%d kinds (those + unknown + block)", n)},
 	}
 }
